@@ -250,7 +250,7 @@ def key_pts(inp, detail):
 def gen_df(tier, seed):
     for spec in SPECS[:2] + SPECS[3:]:
         for policy in ('error', 'drop', 'fill'):
-            for index in ('range', 'shifted', 'permuted'):
+            for index in ('range', 'shifted', 'permuted', 'sliced', 'strided'):
                 for pattern in (['hit', 'miss', 'hit', 'hit'], ['hit', 'hit', 'hit']):
                     yield {'spec': spec, 'policy': policy, 'index': index, 'pattern': pattern}
 
@@ -266,6 +266,18 @@ def test_df(inp):
         df.index = [10 + k for k in range(n)]
     elif inp['index'] == 'permuted':
         df.index = [(k + 1) % n for k in range(n)]
+    elif inp['index'] in ('sliced', 'strided'):
+        # a chunk of a longer table: still a pandas RangeIndex, but not 0 .. n-1 (start 2, or every second row)
+        pad = pandas.DataFrame({'name': ['pad'] * 2, 'x': [0.0, 0.0], 'y': [0.0, 0.0], 'w': [-1.0, -1.0]})
+        if inp['index'] == 'sliced':
+            df = pandas.concat([pad, df], ignore_index=True).iloc[2:]
+        else:
+            rows_ = []
+            for k in range(n):
+                rows_.append(df.iloc[[k]])
+                rows_.append(pad.iloc[[0]])
+            df = pandas.concat(rows_, ignore_index=True)[::2]
+        assert isinstance(df.index, pandas.RangeIndex) and list(df['name']) == [f'p{k}' for k in range(n)]
     misses = [k for k, e in enumerate(expect) if e is None]
     f = lambda: point_extraction.extract_dataframe(ds, df, ('x', 'y'), point_dimension='station', missing_points=inp['policy'])
     if inp['policy'] == 'error' and misses:
